@@ -2,6 +2,7 @@ package worlds
 
 import (
 	"bytes"
+	"encoding/json"
 	"fmt"
 	"os"
 	"reflect"
@@ -159,6 +160,7 @@ type torSnap struct {
 func RunRegistry(env *Env, plan *RegistryPlan) {
 	r := env.R.Fork()
 	simrt.SetYield(plan.YieldP, env.Seed)
+	simrt.YieldTxOn = true
 	var Ts []*gen.Torrent
 	for i := 0; i < plan.Metas; i++ {
 		l := gen.RandomLayout(r, gen.GenOpts{MaxPieces: 3, MaxPieceLen: 16 << 10})
@@ -192,6 +194,8 @@ func RunRegistry(env *Env, plan *RegistryPlan) {
 	opGen := map[string]int{}
 	ambiguous := map[string]bool{}
 	var smu sync.Mutex
+	trkN := 0
+	addedTrk := map[string][]string{} // id -> tracker URLs whose AddTracker returned nil
 
 	// each op is logged twice (invoke, return) so that event sequence numbers order the history
 	doOp := func(client int, op ROp) {
@@ -225,6 +229,10 @@ func RunRegistry(env *Env, plan *RegistryPlan) {
 			node.In(func() { rerr = node.Sess.RemoveTorrent(op.ID, op.Keep) })
 			smu.Lock()
 			delete(started, op.ID)
+			delete(addedTrk, op.ID)
+			// a start/stop that is still running acts on the removed incarnation: whatever it
+			// records must not be held against a torrent added under the same id afterwards
+			opGen[op.ID]++
 			smu.Unlock()
 			simrt.Logf("c%d return remove err=%v", client, rerr)
 			record(client, in, call, regOut{Err: rerr != nil})
@@ -273,7 +281,17 @@ func RunRegistry(env *Env, plan *RegistryPlan) {
 				case "stop":
 					cerr = t.Stop()
 				case "addtracker":
-					t.AddTracker("http://10.9.9.9:6969/extra")
+					// a URL of its own for every call: concurrent additions must all survive
+					smu.Lock()
+					trkN++
+					u := fmt.Sprintf("http://10.9.9.%d:6969/extra%d", 1+client, trkN)
+					smu.Unlock()
+					cerr = t.AddTracker(u)
+					if cerr == nil && node.Sess.GetTorrent(op.ID) == t {
+						smu.Lock()
+						addedTrk[op.ID] = append(addedTrk[op.ID], u)
+						smu.Unlock()
+					}
 				}
 			})
 			if track {
@@ -333,8 +351,9 @@ func RunRegistry(env *Env, plan *RegistryPlan) {
 				wu = append(wu, x.URL)
 			}
 			sort.Strings(wu)
+			sort.Strings(tu) // tiers added concurrently may be listed in either order
 			ih := t.InfoHash()
-			snaps[t.ID()] = torSnap{ID: t.ID(), Name: t.Name(), InfoHash: ih.String(), Port: p, AddedAt: t.AddedAt(), Webseeds: strings.Join(wu, ","),
+			snaps[t.ID()] = torSnap{ID: t.ID(), Name: t.Name(), InfoHash: ih.String(), Port: p, AddedAt: t.AddedAt(), Webseeds: strings.Join(wu, ","), Trackers: strings.Join(tu, ","),
 				HasInfo: st.Pieces.Total > 0, Pieces: st.Pieces.Total, Bytes: st.Bytes.Total, Down: st.Bytes.Downloaded, Up: st.Bytes.Uploaded, Started: st.Status != torrent.Stopped && st.Status != torrent.Stopping}
 		}
 		var ss torrent.SessionStats
@@ -359,6 +378,30 @@ func RunRegistry(env *Env, plan *RegistryPlan) {
 				simrt.Violate("C14", "db.missing_record", "%s: torrent %q is in the session but not in the resume database", when, id)
 			}
 		}
+		// every tracker whose addition was acknowledged is in the record (it is what a restart
+		// brings back), also when several clients added trackers to one torrent at once
+		smu.Lock()
+		for id, urls := range addedTrk {
+			rec, ok := recs[id]
+			if !ok || !ids[id] {
+				continue
+			}
+			var tiers [][]string
+			_ = json.Unmarshal(rec["trackers"], &tiers)
+			have := map[string]bool{}
+			for _, tier := range tiers {
+				for _, u := range tier {
+					have[u] = true
+				}
+			}
+			for _, u := range urls {
+				if !have[u] {
+					simrt.Violate("C14", "db.tracker_lost", "%s: AddTracker(%q) on torrent %q returned nil but the tracker is not in its resume record (%d tiers stored)", when, u, id, len(tiers))
+					break
+				}
+			}
+		}
+		smu.Unlock()
 		return snaps
 	}
 
@@ -475,6 +518,13 @@ func RunRegistry(env *Env, plan *RegistryPlan) {
 					if b.Pieces > plan.LowerMaxPieces {
 						unloadable[id] = true
 						simrt.Count("fault.registry.unloadable_record", 1)
+						// the id is free again in the coming phases: nothing known about the
+						// refused torrent applies to a torrent added under it later
+						smu.Lock()
+						delete(started, id)
+						delete(ambiguous, id)
+						delete(addedTrk, id)
+						smu.Unlock()
 					}
 				}
 			}
